@@ -471,9 +471,24 @@ def repeated_formatting(c):
     return False
 
 
+def own_diff_prefix_attr(c):
+    """the documents bind the prefix `diff` to a namespace of their own and carry an ATTRIBUTE in that namespace"""
+    for s in (c["left"], c["right"]):
+        try:
+            root = etree.fromstring(s)
+        except Exception:  # noqa
+            continue
+        u = root.nsmap.get("diff")
+        if u and u != D[1:-1] and any(k.startswith("{%s}" % u) for e in root.iter() if isinstance(e.tag, str) for k in e.attrib):
+            return True
+    return False
+
+
 def key_C08(c, msg=""):
     if diffns_in_input(c):
         return "diff-namespace-in-input"
+    if msg.startswith("undocumented diff attribute") and own_diff_prefix_attr(c):
+        return "own-diff-prefix-attribute-on-created-node"
     if "does not parse as XML" in msg and "already defined" in msg and c.get("dup_xmlid"):
         return "duplicate-xml-id-in-output"
     if reserved_prefix(c):
@@ -531,6 +546,8 @@ def oracle_proj(c, mode):
     key = None
     if two_prefixes(c):
         key = "two-prefixes-one-uri-on-left-root"
+    elif own_diff_prefix_attr(c) and oracle_C08_msg(c) and oracle_C08_msg(c).startswith("undocumented diff attribute"):
+        key = "own-diff-prefix-attribute-on-created-node"
     elif cfg["replace"] and cfg["tt"]:
         key = "use_replace-with-text_tags"
     elif has_comment_tail(c["left"], c["right"]) and nf_eq(got, project_ref(strip_comments_keep(doc, False), cfg)):
@@ -1055,6 +1072,25 @@ TWOPFX_STREAM = [
 ]
 
 
+# the documents bind `diff` to a namespace of their own and an attribute of that namespace is put on a node the
+# formatter created (an inserted node, the copy a move leaves at the target): open finding
+# 'own-diff-prefix-attribute-on-created-node' (thorough tier, session 3).  format() registers diff -> its own namespace;
+# when the script was computed BEFORE format() is called (a list, not the lazy generator main.diff_trees hands over) that
+# registration is the last one, the created node declares xmlns:diff for the formatter's namespace and lxml prints the
+# document's attribute with the now shadowed prefix: read back, it is an attribute of the formatter's namespace
+OWNDIFF_STREAM = [
+    ('<diff:p xmlns:diff="urn:example:revisions" xmlns:d2="urn:n"><diff:item><d2:b/></diff:item></diff:p>',
+     '<diff:p xmlns:diff="urn:example:revisions" xmlns:d2="urn:n"><d2:b diff:k="1"/></diff:p>'),
+    ('<r xmlns:diff="urn:example:revisions"><a><b i="1">some text</b></a><c/></r>',
+     '<r xmlns:diff="urn:example:revisions"><a/><c><b diff:k="1">some text</b></c></r>'),
+]
+
+
+def gen_owndiff():
+    return [{"kind": "reserved", "left": l, "right": r, "cfg": {"normalize": WS_NONE, "replace": False, "tt": [], "fmt": []},
+             "opts": {}, "late": False} for l, r in OWNDIFF_STREAM]
+
+
 def gen_twopfx():
     """the left root binds two prefixes to one URI: open finding 'two-prefixes-one-uri-on-left-root' (getpath counts
     siblings by prefix, XPath by URI); outside the model, which knows one prefix per URI"""
@@ -1268,6 +1304,7 @@ def gen_inputs(run, rng):
     cases += gen_known()
     cases += gen_reserved()
     cases += gen_twopfx()
+    cases += gen_owndiff()
     cases += gen_labelled()
     cases += gen_texts(rng, quick)
     cases += gen_prefixes(rng, 30 if quick else 300)
